@@ -574,6 +574,10 @@ class CallMixin(object):
                         res.append(o)
                 return res
             return self.method(inner, name, args, kw, b, node, recv_node)
+        if isinstance(ty, U):
+            c = self.reg.methods.get((ty.name, name))
+            if c is not None:
+                return self.call_contract(c, [recv] + args, kw, st, node)      # a method of an opaque sort declared as interface
         dl = self.dictlike(ty) if isinstance(ty, U) else None
         if dl is not None and name == "get":
             sub = self.dl_sub(recv, dl)
